@@ -202,3 +202,22 @@ Theorem C02_bam_closed_loop_delivers : forall prio sa dp pf p t0 A0 B0,
              ++ [tp22_eom_status sa addr_GLOBAL 0 (len p) (Z.of_nat ns) pv].
 Proof. exact Net22Bam.bam_closed_loop22_delivers. Qed.
 Print Assumptions C02_bam_closed_loop_delivers.
+
+From J1939P Require Net21Seq Net22Seq.
+
+(* T02.11 / T10.20: a HISTORY of FD transfers.  Any number of J1939-22 connection-mode transfers (any payloads of more than 60
+   bytes, any PGNs and priorities) run one after the other between two FD model nodes, each submitted when the network
+   has come to rest: ALL of them complete — after every one the nodes meet the premises of the FD closed-loop theorem again
+   (nothing pending, same configuration and subscribers, the session number back in the pool), so the next one is accepted
+   and delivers; B's subscribers have got every payload exactly once, in order, and the wire carries exactly the frames of
+   every transfer, in order *)
+Theorem C02_fd_sequence_of_transfers_all_deliver : forall sa dest, 0 <= sa < 255 -> 0 <= dest < 255 ->
+  forall ms s, Forall Net22Seq.msg22_ok ms -> Net22.pa s = [] -> Net22.pb s = [] -> 0 < Net22.fclk s ->
+  Net22Seq.premA22 sa (Net22.fa s) -> Net22Seq.premB22 dest (Net22.fb s) ->
+  exists s', Net22Seq.seq_reach22 sa dest s ms s' /\
+    Net22.pa s' = [] /\ Net22.pb s' = [] /\ Net22Seq.premA22 sa (Net22.fa s') /\ Net22Seq.premB22 dest (Net22.fb s') /\
+    Net22.evb2 s' = Net22.evb2 s ++ concat (map (fun m => deliveries (base (Net22.fb s)) 7 (Net21Seq.m_dp m * 65536 + Net21Seq.m_pf m * 256)
+                                                                     sa dest (Net21Seq.m_data m)) ms) /\
+    Net22.wab2 s' = Net22.wab2 s ++ concat (map (Net22Seq.wire22_of sa dest (n_maxp (base (Net22.fa s)))) ms).
+Proof. exact Net22Seq.sequence22_delivers. Qed.
+Print Assumptions C02_fd_sequence_of_transfers_all_deliver.
